@@ -154,6 +154,9 @@ pub struct Oracles {
     /// E2: injected RPC faults in this run; watcher bookkeeping.
     pub startup_aborted: bool,
     pub notif_panics: u64,
+    /// Virtual time of the last event concerning a hash (reply delivered, part
+    /// resolved, HTLC delivered, RPC issued).
+    pub last_activity_ms: BTreeMap<H32, u64>,
     pub e2_faults: u64,
     pub watch_told: u32,
     pub watch_last: u32,
@@ -178,6 +181,7 @@ impl Oracles {
             first_panic_key: None,
             startup_aborted: false,
             notif_panics: 0,
+            last_activity_ms: BTreeMap::new(),
             e2_faults: 0,
             watch_told: 0,
             watch_last: 0,
@@ -448,6 +452,7 @@ impl Oracles {
                 self.hit("c06.undecodable-delivered");
             }
             Class::Trampoline(t) => {
+                self.last_activity_ms.insert(t.hash, w.now_ms);
                 self.hit("tramp.delivered");
                 if !self.touched.contains(&t.hash) {
                     self.touched.push(t.hash);
@@ -583,6 +588,9 @@ impl Oracles {
     pub fn on_rpc_issued(&mut self, w: &World, ri: usize) {
         if w.cfg.mode != "process" {
             return;
+        }
+        if let Some(x) = w.node.rpcs[ri].hash {
+            self.last_activity_ms.insert(x, w.now_ms);
         }
         let r = &w.node.rpcs[ri];
         let kind = rpc_kind(r.method, &r.params);
@@ -1119,6 +1127,7 @@ impl Oracles {
     }
 
     pub fn on_part_resolved(&mut self, w: &World, pi: usize) {
+        self.last_activity_ms.insert(w.node.parts[pi].hash, w.now_ms);
         // Reach probe for D5: a part completes between the two listsendpays of one wait.
         let p = &w.node.parts[pi];
         if p.status == PartStatus::Complete {
@@ -1914,6 +1923,44 @@ impl Oracles {
         }
     }
 
+    /// An unanswered call only counts as hanging when the schedule really
+    /// drained everything that could still answer it: nothing outstanding for
+    /// its hash (for non-trampoline calls: nothing at all), no part pending, no
+    /// pay command running, and virtual time advanced past every deadline since
+    /// the last thing that happened for it. (A truncated schedule - as the
+    /// minimiser produces - otherwise "reproduces" a hang trivially.)
+    fn hung(&self, w: &World, ci: usize) -> bool {
+        let c = &w.node.calls[ci];
+        let delivered = match c.delivered_at_ms {
+            Some(t) => t,
+            None => return false,
+        };
+        let hx = match &c.class {
+            Class::Trampoline(t) => Some(t.hash),
+            _ => None,
+        };
+        let busy = match hx {
+            Some(x) => {
+                w.node.outstanding_rpcs().any(|(_, r)| r.hash == Some(x))
+                    || w.node.has_pending(&x)
+                    || w.node.cmd_running(&x)
+            }
+            None => false,
+        };
+        if busy {
+            return false;
+        }
+        let last = hx
+            .and_then(|x| self.last_activity_ms.get(&x).copied())
+            .unwrap_or(0)
+            .max(delivered);
+        let wait = match hx {
+            Some(_) => w.cfg.mpp_timeout.min(10_000_000).saturating_mul(1000).saturating_add(60_500),
+            None => 2,
+        };
+        w.now_ms >= last.saturating_add(wait)
+    }
+
     pub fn end_of_run(&mut self, w: &World) {
         // ---- C20: catch-up within one poll interval -------------------------------------
         if w.cfg.mode == "watcher" {
@@ -2016,7 +2063,7 @@ impl Oracles {
             if let Some(fz) = w.frozen_hash {
                 let mut other_progress = false;
                 let mut blocked: Vec<u64> = Vec::new();
-                for c in w.node.calls.iter().filter(|c| c.lifetime == w.node.lifetime) {
+                for (ci, c) in w.node.calls.iter().enumerate().filter(|(_, c)| c.lifetime == w.node.lifetime) {
                     let hx = w.node.htlc(c.hid).spec.hash_ix;
                     if hx == fz {
                         continue;
@@ -2024,7 +2071,7 @@ impl Oracles {
                     if c.delivered_step.map(|s| Some(s) >= w.frozen_at_step).unwrap_or(false) {
                         other_progress = true;
                     }
-                    if c.delivered_step.is_some() && c.answer.is_none() {
+                    if c.delivered_step.is_some() && c.answer.is_none() && self.hung(w, ci) {
                         blocked.push(c.hid);
                     }
                 }
@@ -2042,6 +2089,22 @@ impl Oracles {
             }
             for (ci, c) in w.node.held_calls() {
                 if Some(w.node.htlc(c.hid).spec.hash_ix) == w.frozen_hash {
+                    continue;
+                }
+                if !self.hung(w, ci) {
+                    // Still busy after hundreds of fault-free steps in which every
+                    // RPC was answered at once: the call is not waiting for
+                    // anything, it is going round in circles.
+                    if w.steps_since_quiesce >= 300 {
+                        self.violate(
+                            w,
+                            "C06",
+                            "no-progress-after-faults-stopped",
+                            format!("hook call for htlc {} is still unanswered after {} fault-free steps in which every RPC was answered immediately (RPCs keep being issued)", c.hid, w.steps_since_quiesce),
+                        );
+                    } else {
+                        self.hit("c06.unanswered-but-schedule-not-drained");
+                    }
                     continue;
                 }
                 // A configured MPP timeout of decades: a never-funded set is
